@@ -5,6 +5,7 @@ import SlipVerif.Driver.Util
 
    object   : n | t | i<dec> | y<hex-name> | c<codepoint> | (<obj>.<obj>)
    sequence : L[<obj>,…] (list) | V[<obj>,…] (vector) | S[<obj>,…] (string, characters only)
+              | O[<obj>,…] (octets, integers 0..255 only)
    function : car cdr char-code 1+ neg mod2 upcase evenp oddp plusp null consp eqto:<obj> ltthan:<int>
               eq eql equal < <= > >= = char= char< sameparity + - cons list max
               seqcount:<obj> seqfind:<obj> seqposition:<obj> seqremove:<obj> seqmember:<obj> seqdedup
@@ -12,6 +13,8 @@ import SlipVerif.Driver.Util
               (user lambdas that call sequence functions on elements that are lists)
    fields   : item new seq seq2 seqs(= s;s;…) start end start1 end1 start2 end2 key test testnot pred
               count fromend init rtype fn result
+              trace=t (every some notany notevery map mapcar reduce): the reply also lists the calls the
+              user function observes, in order: `ok <value> |<arg>,<arg>/<arg>,<arg>/…`
               self=key|pred|fn|test|test1 [base=<function>] : that argument is the user function
               (lambda (x) (if (consp x) (funcall f x) (base x))) re-entering the call itself (`f`)
               on nested lists (two-argument form for test); base defaults to identity / equal
@@ -71,6 +74,7 @@ def parseSeqChars (cs : List Char) : Option (Seq × List Char) :=
     | 'L' :: '[' :: _ => some .list
     | 'V' :: '[' :: _ => some .vector
     | 'S' :: '[' :: _ => some .string
+    | 'O' :: '[' :: _ => some .octets
     | _ => none
   match k with
   | none => none
@@ -96,6 +100,7 @@ def showSeq (s : Seq) : String :=
     | .list => "L"
     | .vector => "V"
     | .string => "S"
+    | .octets => "O"
   tag ++ "[" ++ ",".intercalate (s.elems.map showObj) ++ "]"
 
 def parseFn (s : String) : Option Fn :=
@@ -152,6 +157,7 @@ def parseKind (s : String) : Option Kind :=
   | "list" => some .list
   | "vector" => some .vector
   | "string" => some .string
+  | "octets" => some .octets
   | _ => none
 
 /-! ### request fields -/
@@ -293,16 +299,29 @@ inductive Reply where
   | obj (o : Obj)
   | seq (s : Seq)
   | err (e : Err)
+  | objT (o : Obj) (calls : List (List Obj))     -- with the calls the user function observed (trace=t)
+  | seqT (s : Seq) (calls : List (List Obj))
 
 def showErr : Err → String
   | .bounds => "err bounds"
   | .type => "err type"
   | .arg => "err arg"
 
+def showCalls (calls : List (List Obj)) : String :=
+  " |" ++ "/".intercalate (calls.map (fun c => ",".intercalate (c.map showObj)))
+
 def Reply.show : Reply → String
   | .obj o => "ok " ++ showObj o
   | .seq s => "ok " ++ showSeq s
   | .err e => showErr e
+  | .objT o calls => "ok " ++ showObj o ++ showCalls calls
+  | .seqT s calls => "ok " ++ showSeq s ++ showCalls calls
+
+/-- attach the observed calls when the request asks for them (`trace=t`) -/
+def withTrace (traced : Bool) (calls : List (List Obj)) : Reply → Reply
+  | .obj o => if traced then .objT o calls else .obj o
+  | .seq s => if traced then .seqT s calls else .seq s
+  | r => r
 
 def exObj : Except Err Obj → Reply
   | .ok o => .obj o
@@ -486,20 +505,21 @@ where
       | none => reqField fs "seqs" parseSeqs
     let ls := ss.map Seq.toList
     let f ← readTupleFn ov fs ls
+    let traced ← boolField fs "trace"
     match name with
-    | "every" => pure (.obj (every f ls))
-    | "some" => pure (.obj (some' f ls))
-    | "notany" => pure (.obj (notany f ls))
-    | "notevery" => pure (.obj (notevery f ls))
+    | "every" => pure (withTrace traced (everyTrace f ls) (.obj (every f ls)))
+    | "some" => pure (withTrace traced (someTrace f ls) (.obj (some' f ls)))
+    | "notany" => pure (withTrace traced (someTrace f ls) (.obj (notany f ls)))
+    | "notevery" => pure (withTrace traced (everyTrace f ls) (.obj (notevery f ls)))
     | "mapcar" =>
-      if ss.all (fun s => s.kind = .list) then pure (.seq ⟨.list, mapcar f ls⟩)
+      if ss.all (fun s => s.kind = .list) then pure (withTrace traced (mapTrace ls) (.seq ⟨.list, mapcar f ls⟩))
       else .error "bad-request list-only"
     | _ =>
       match fs.get "rtype" with
-      | some "nil" => pure (.obj .nil)
+      | some "nil" => pure (withTrace traced (mapTrace ls) (.obj .nil))
       | _ =>
         let rt ← reqField fs "rtype" parseKind
-        pure (exSeq (mapS rt f ss))
+        pure (withTrace traced (mapTrace ls) (exSeq (mapS rt f ss)))
   | "concatenate" =>
     let ss ← reqField fs "seqs" parseSeqs
     let rt ← reqField fs "rtype" parseKind
@@ -531,7 +551,10 @@ where
           | x :: r => r.foldl (fun acc y => step acc y true) (some x)
       match res with
       | none => illTyped
-      | some _ => pure (exObj (reduceS (fun x y => f.app [x, y]) (f.app []) (totKey key) init fromEnd (a.getD 0) b s))
+      | some _ =>
+        let traced ← boolField fs "trace"
+        pure (withTrace traced (reduceTrace (fun x y => f.app [x, y]) init fromEnd ks)
+          (exObj (reduceS (fun x y => f.app [x, y]) (f.app []) (totKey key) init fromEnd (a.getD 0) b s)))
   | _ => .error "bad-request function"
 
 /-- nesting depth the recursion of a self-calling user function may reach (the harness generates
